@@ -441,6 +441,8 @@ def run(ctx):
     shutil.rmtree(base, ignore_errors=True)
     seeded_sessions(ctx)
     three_way(ctx)
+    import c17_pipeline
+    c17_pipeline.run_pipeline(ctx)
 
 
 def three_way(ctx):
